@@ -1,6 +1,8 @@
 package main
 
 import (
+	"sync"
+	"sync/atomic"
 	"encoding/base64"
 	"math/rand/v2"
 	"net/http"
@@ -23,6 +25,7 @@ func init() {
 		Assumptions: []string{"frozen library clock (hook) for TTL expiry", "a raw-codec cookie that parses to a current member is valid by definition; such mangled values are not used as negatives"},
 		Parts: []Part{
 			{Name: "sessions", Shards: 8, Fn: c11Sessions},
+			{Name: "conc", Race: true, Shards: 4, Fn: c11Conc},
 		},
 	})
 }
@@ -236,7 +239,7 @@ func c11Sessions(c *Ctx) {
 		pinnedAfterPerturbation := 0
 		// 2. positive phase
 		for step := 0; step < 3+r.IntN(6); step++ {
-			switch r.IntN(5) {
+			switch r.IntN(6) {
 			case 0:
 				n := r.IntN(5)
 				for k := 0; k < n; k++ {
@@ -265,6 +268,22 @@ func c11Sessions(c *Ctx) {
 						_ = t.remove(byKey[k])
 						delete(model, k)
 						script = append(script, "remove-other")
+						break
+					}
+				}
+			case 5: // swap: remove a server other than s0 and add a new one back-to-back (pool size unchanged, nothing observed in between)
+				for k := range model {
+					if k != s0 && len(model) > 2 {
+						u := c11GenURL(r, 20+step)
+						if _, dup := model[urlKey(u)]; dup {
+							break
+						}
+						_ = t.remove(byKey[k])
+						delete(model, k)
+						_ = t.upsert(u, roundrobin.Weight(1))
+						model[urlKey(u)] = 1
+						byKey[urlKey(u)] = u
+						script = append(script, "swap-other")
 						break
 					}
 				}
@@ -317,6 +336,15 @@ func c11Sessions(c *Ctx) {
 			_ = t.remove(byKey[s0])
 			delete(model, s0)
 			script = append(script, "remove-s0")
+			if r.IntN(2) == 0 { // replaced at once by a new server: the pool size does not change
+				u := c11GenURL(r, 40)
+				if _, dup := model[urlKey(u)]; !dup && urlKey(u) != s0 {
+					_ = t.upsert(u, roundrobin.Weight(1))
+					model[urlKey(u)] = 1
+					byKey[urlKey(u)] = u
+					script = append(script, "add-replacement")
+				}
+			}
 			negs = append(negs, neg{"stale-removed-server", v0, true})
 		}
 		negs = append(negs, mangle()...)
@@ -397,4 +425,71 @@ func c11Sessions(c *Ctx) {
 		}
 	})
 	c.Require("sessions_nontrivial", 2)
+}
+
+// c11Conc: many clients start sessions at once; every fresh cookie must name the server that served that very response.
+func c11Conc(c *Ctx) {
+	c.Cases("conc", c.N(30, 800), func(i int, r *rand.Rand) {
+		codec := c11GenCodec(r)
+		kind := pick(r, []string{"rr", "rb"})
+		h := http.HandlerFunc(func(w http.ResponseWriter, req *http.Request) { w.Header().Set("X-Routed", urlKey(req.URL)) })
+		sticky := roundrobin.NewStickySession("aff").SetCookieValue(codec.v)
+		t := newC02Target(kind, h, "never", r, sticky)
+		n := 2 + r.IntN(4)
+		for k := 0; k < n; k++ {
+			if err := t.upsert(c11GenURL(r, k), roundrobin.Weight(1+r.IntN(2))); err != nil {
+				return
+			}
+		}
+		const G = 8
+		per := 40 + r.IntN(c.N(100, 300))
+		var wg sync.WaitGroup
+		var bad atomic.Int64
+		var firstBad atomic.Value
+		var sessions atomic.Int64
+		start := make(chan struct{})
+		for g := 0; g < G; g++ {
+			wg.Add(1)
+			go func() {
+				defer wg.Done()
+				<-start
+				for k := 0; k < per; k++ {
+					rec := httptest.NewRecorder()
+					t.serve(rec, httptest.NewRequest("GET", "http://client.test/", nil))
+					first := rec.Header().Get("X-Routed")
+					var cookie *http.Cookie
+					for _, ck := range (&http.Response{Header: rec.Header()}).Cookies() {
+						if ck.Name == "aff" {
+							cookie = ck
+						}
+					}
+					if cookie == nil || first == "" {
+						bad.Add(1)
+						firstBad.CompareAndSwap(nil, sfmt("cookie-less request: routed=%q cookie=%v", first, cookie != nil))
+						continue
+					}
+					req := httptest.NewRequest("GET", "http://client.test/", nil)
+					req.AddCookie(&http.Cookie{Name: "aff", Value: cookie.Value})
+					rec2 := httptest.NewRecorder()
+					t.serve(rec2, req)
+					sessions.Add(1)
+					if got := rec2.Header().Get("X-Routed"); got != first {
+						bad.Add(1)
+						firstBad.CompareAndSwap(nil, sfmt("the response served by %q carried a cookie that routes to %q", first, got))
+					}
+				}
+			}()
+		}
+		close(start)
+		wg.Wait()
+		c.Eval()
+		c.Count("conc_sessions", sessions.Load())
+		if bad.Load() > 0 {
+			c.Violation("conc/fresh-cookie-wrong-server", sfmt("codec %s, %s: %d of %d concurrent sessions got a fresh cookie that does not pin them to the server that answered (%v)", codec.desc, kind, bad.Load(), G*per, firstBad.Load()), nil)
+			return
+		}
+		c.Nontrivial(sfmt("conc/%s/%s/%d/%d", codec.desc, kind, n, per))
+		c.Count("conc_nontrivial", 1)
+	})
+	c.Require("conc_nontrivial", 2)
 }
